@@ -66,8 +66,12 @@ type Scenario struct {
 	PollMs    int      `json:"poll_ms,omitempty"`
 	SlowUs    int      `json:"slow_us,omitempty"` // delay of the slow writer per write
 	Seed      int64    `json:"seed"`
-	Case      bool     `json:"case,omitempty"`   // small scenario: emit a Coq correspondence case
-	Script    []int    `json:"script,omitempty"` // scripted ring run: 1 = Set, 0 = Release
+	Case      bool     `json:"case,omitempty"`    // small scenario: emit a Coq correspondence case
+	Script    []int    `json:"script,omitempty"`  // scripted ring run: 1 = Set, 0 = Release
+	Ctor      string   `json:"ctor,omitempty"`    // membership script: combined | multi | writers
+	Init      int      `json:"init,omitempty"`    // membership script: length of the caller's slice
+	Cap       int      `json:"cap,omitempty"`     // ... and its capacity
+	AScript   [][3]int `json:"ascript,omitempty"` // (op, a, b): 0 New c | 1 Append c id | 2 caller backing[a] = id b | 3 caller append id | 4 Log c m
 	Stdout    string   `json:"stdout,omitempty"`
 	Stderr    string   `json:"stderr,omitempty"`
 	Dir       string   `json:"dir,omitempty"`
@@ -1422,11 +1426,178 @@ func runGap(sc Scenario, res *WResult) {
 }
 
 // ---------------------------------------------------------------------------------------------------------------
+// membership scripts (sequential): composites built from a slice the CALLER owns (spare capacity) and keeps using.
+// Oracle by member identity: each composite's members are exactly those given at construction plus its own Appends;
+// each of them receives each message exactly once; nobody else receives anything.
+
+const aliasUniverse = 12
+
+func runAlias(sc Scenario, res *WResult) {
+	res.Evals++
+	type pair struct{ c, m int }
+	content := make([]func() []byte, aliasUniverse+1)
+	var lg []logs.Loggers
+	var wr []logs.WriterWithSource
+	if sc.Ctor == "writers" {
+		wr = make([]logs.WriterWithSource, aliasUniverse+1)
+		for id := 1; id <= aliasUniverse; id++ {
+			w := &recWriter{}
+			wr[id], content[id] = w, w.bytes
+		}
+	} else {
+		lg = make([]logs.Loggers, aliasUniverse+1)
+		for id := 1; id <= aliasUniverse; id++ {
+			l, err := logs.NewPlainStringLogger()
+			if err != nil {
+				res.fail("worker-crash:alias", err.Error(), sc)
+				return
+			}
+			lg[id], content[id] = l, func() []byte { return []byte(l.GetLogContent()) }
+		}
+	}
+	backing := make([]int, sc.Init, sc.Cap) // the oracle's own view of the caller's slice (identities)
+	var backL []logs.Loggers
+	var backW []logs.WriterWithSource
+	if sc.Ctor == "writers" {
+		backW = make([]logs.WriterWithSource, sc.Init, sc.Cap)
+	} else {
+		backL = make([]logs.Loggers, sc.Init, sc.Cap)
+	}
+	for i := 0; i < sc.Init; i++ {
+		backing[i] = i + 1
+		if sc.Ctor == "writers" {
+			backW[i] = wr[i+1]
+		} else {
+			backL[i] = lg[i+1]
+		}
+	}
+	compL := map[int]logs.IMultipleLoggers{}
+	compW := map[int]*logs.MultipleWritersWithSource{}
+	own := map[int][]int{}
+	expect := map[int][]pair{}
+	exists := func(c int) bool { _, ok := own[c]; return ok }
+	for _, o := range sc.AScript {
+		switch o[0] {
+		case 0:
+			var err error
+			switch sc.Ctor {
+			case "writers":
+				compW[o[1]], err = logs.NewMultipleWritersWithSource(backW...)
+			case "multi":
+				compL[o[1]], err = logs.NewMultipleLoggers("lsrc", backL...)
+			default:
+				compL[o[1]], err = logs.NewCombinedLoggers(backL...)
+			}
+			if err != nil {
+				res.fail("worker-crash:alias", "constructor failed: "+err.Error(), sc)
+				return
+			}
+			own[o[1]] = append([]int(nil), backing...)
+		case 1:
+			if !exists(o[1]) {
+				continue
+			}
+			if sc.Ctor == "writers" {
+				_ = compW[o[1]].AddWriters(wr[o[2]])
+			} else {
+				_ = compL[o[1]].Append(lg[o[2]])
+			}
+			own[o[1]] = append(own[o[1]], o[2])
+		case 2:
+			if o[1] < len(backing) {
+				backing[o[1]] = o[2]
+				if sc.Ctor == "writers" {
+					backW[o[1]] = wr[o[2]]
+				} else {
+					backL[o[1]] = lg[o[2]]
+				}
+			}
+		case 3:
+			backing = append(backing, o[1])
+			if sc.Ctor == "writers" {
+				backW = append(backW, wr[o[1]])
+			} else {
+				backL = append(backL, lg[o[1]])
+			}
+		case 4:
+			if !exists(o[1]) {
+				continue
+			}
+			tok := token(sc.Seed, mid{o[1], 'o', o[2]})
+			if sc.Ctor == "writers" {
+				_, _ = compW[o[1]].Write([]byte(tok + "\n"))
+			} else {
+				compL[o[1]].Log(tok)
+			}
+			for _, id := range own[o[1]] {
+				expect[id] = append(expect[id], pair{o[1], o[2]})
+			}
+		}
+	}
+	// observations, by identity
+	var obsTerms []string
+	for id := 1; id <= aliasUniverse; id++ {
+		sk := &sink{name: fmt.Sprintf("logger#%d", id), format: "plain", read: content[id]}
+		corrupt, _ := sk.parse(sc.Seed)
+		if len(corrupt) > 0 {
+			res.fail("corrupt:alias", sk.name+": "+corrupt[0], sc)
+		}
+		var got []pair
+		var ts []string
+		for _, m := range sk.obs {
+			got = append(got, pair{m.P, m.K})
+			ts = append(ts, fmt.Sprintf("(%s, %s)", coqNat(m.P), coqNat(m.K)))
+		}
+		obsTerms = append(obsTerms, fmt.Sprintf("(%s, %s)", coqNat(id), h.List(ts)))
+		want := expect[id]
+		cnt := map[pair]int{}
+		for _, x := range want {
+			cnt[x]++
+		}
+		for _, x := range got {
+			cnt[x]--
+		}
+		for x, n := range cnt {
+			if n > 0 {
+				res.fail("lost:alias", fmt.Sprintf("%s constructor: logger #%d is a member of composite %d but did not receive message %d", sc.Ctor, id, x.c, x.m), sc)
+			} else if n < 0 {
+				res.fail("unexpected:alias", fmt.Sprintf("%s constructor: logger #%d received message %d of composite %d %d time(s) too many (it is not a member, or not that often)", sc.Ctor, id, x.m, x.c, -n), sc)
+			}
+		}
+	}
+	res.Counts["alias-script:"+sc.Ctor]++
+	res.Distinct = append(res.Distinct, fmt.Sprintf("alias|%s|%d|%d|%v", sc.Ctor, sc.Init, sc.Cap, sc.AScript))
+	var init, script []string
+	for i := 1; i <= sc.Init; i++ {
+		init = append(init, coqNat(i))
+	}
+	for _, o := range sc.AScript {
+		switch o[0] {
+		case 0:
+			script = append(script, "ANew "+coqNat(o[1]))
+		case 1:
+			script = append(script, "AAppend "+coqNat(o[1])+" "+coqNat(o[2]))
+		case 2:
+			script = append(script, "ACallerSet "+coqNat(o[1])+" "+coqNat(o[2]))
+		case 3:
+			script = append(script, "ACallerAppend "+coqNat(o[1]))
+		case 4:
+			script = append(script, "ALog "+coqNat(o[1])+" "+coqNat(o[2]))
+		}
+	}
+	res.Cases = append(res.Cases, caseOut{Term: fmt.Sprintf("(CAlias %s %s %s %s)", h.List(init), coqNat(sc.Cap), h.List(script), h.List(obsTerms)), Desc: sc})
+}
+
+// ---------------------------------------------------------------------------------------------------------------
 // worker
 
 func runScenario(sc Scenario, res *WResult) {
 	if sc.Kind == "ringscript" {
 		runScript(sc, res)
+		return
+	}
+	if sc.Kind == "alias" {
+		runAlias(sc, res)
 		return
 	}
 	if sc.Kind == "ringgap" {
@@ -1654,6 +1825,44 @@ func scenarios(r *h.Run) map[string][]Scenario {
 	}
 	for i := 0; i < r.N(30, 90); i++ {
 		add(Scenario{Kind: "async", Producers: 2 + rng.Intn(4), Msgs: 2 + rng.Intn(12), Mix: "log", Ring: []int{1, 2, 3, 4, 8, 64}[rng.Intn(6)], PollMs: rng.Intn(2), SlowUs: rng.Intn(200), Case: true})
+	}
+	// membership scripts: caller-owned slices with spare capacity, mutated / reused / appended to after construction
+	for _, ctor := range []string{"combined", "multi", "writers"} {
+		al := func(init, cap int, ops ...[3]int) {
+			sc := Scenario{Kind: "alias", Ctor: ctor, Init: init, Cap: cap, AScript: ops}
+			sc.Seed = rng.Int63n(1 << 40)
+			groups["alias"] = append(groups["alias"], sc)
+		}
+		al(2, 8, [3]int{0, 0}, [3]int{2, 0, 9}, [3]int{4, 0, 1})                                                                  // the caller overwrites an element
+		al(2, 8, [3]int{0, 0}, [3]int{0, 1}, [3]int{1, 0, 3}, [3]int{1, 1, 4}, [3]int{4, 0, 1}, [3]int{4, 1, 2})                  // two composites, one Append each
+		al(2, 8, [3]int{0, 0}, [3]int{1, 0, 3}, [3]int{3, 5}, [3]int{4, 0, 1})                                                    // the caller appends after the composite did
+		al(2, 8, [3]int{0, 0}, [3]int{3, 5}, [3]int{1, 0, 3}, [3]int{4, 0, 1}, [3]int{0, 1}, [3]int{4, 1, 2})                     // ... and before; then a second composite
+		al(3, 3, [3]int{0, 0}, [3]int{0, 1}, [3]int{1, 0, 4}, [3]int{1, 1, 5}, [3]int{2, 1, 6}, [3]int{4, 0, 1}, [3]int{4, 1, 2}) // no spare capacity
+		al(1, 2, [3]int{0, 0}, [3]int{1, 0, 2}, [3]int{0, 1}, [3]int{1, 1, 3}, [3]int{1, 0, 4}, [3]int{4, 0, 1}, [3]int{4, 1, 2})
+		for i := 0; i < r.N(25, 80); i++ {
+			init := 1 + rng.Intn(4)
+			cap := init + rng.Intn(7)
+			n := 6 + rng.Intn(16)
+			ops := [][3]int{{0, 0}}
+			for j := 0; j < n; j++ {
+				switch rng.Intn(10) {
+				case 0, 1:
+					ops = append(ops, [3]int{0, rng.Intn(3)})
+				case 2, 3, 4:
+					ops = append(ops, [3]int{1, rng.Intn(3), 1 + rng.Intn(aliasUniverse)})
+				case 5:
+					ops = append(ops, [3]int{2, rng.Intn(init + 2), 1 + rng.Intn(aliasUniverse)})
+				case 6:
+					ops = append(ops, [3]int{3, 1 + rng.Intn(aliasUniverse)})
+				default:
+					ops = append(ops, [3]int{4, rng.Intn(3), j})
+				}
+			}
+			for c := 0; c < 3; c++ {
+				ops = append(ops, [3]int{4, c, n + c})
+			}
+			al(init, cap, ops...)
+		}
 	}
 	// replay of the known finding (runs in its own worker from the start of every run)
 	for i, ring := range []int{4, 4, 2, 4, 3, 4} {
